@@ -40,9 +40,31 @@ pub fn elem_src(kind: &str, e: &str) -> String {
 }
 fn ffmt(x: f64) -> String { let s = format!("{}", x); if s.contains('.') || s.contains('e') { s } else { format!("{}.0", s) } }
 
+/// an f64 bit pattern that has no literal spelling: NaN, an infinity, the negative zero
+fn special_f64(e: &str) -> Option<(&'static str, &'static str)> {
+  let x = f64::from_bits(u64::from_str_radix(e, 16).ok()?);
+  if x.is_nan() { Some(("0.0", "0.0")) } else if x == f64::INFINITY { Some(("1.0", "0.0")) } else if x == f64::NEG_INFINITY { Some(("-1.0", "0.0")) }
+  else if x == 0.0 && x.is_sign_negative() { Some(("0.0", "-1.0")) } else { None }
+}
+
 pub fn operand_def(name: &str, kind: &str, o: &str, tilde: bool) -> String {
   let p: Vec<&str> = o.split('|').collect();
   let t = if tilde { "~" } else { "" };
+  // an f64 operand with NaN, infinities or a negative zero is defined as the element-wise quotient of two literals
+  // (v / 1 for an ordinary element, 0/0, 1/0, -1/0, 0/-1 for the special ones)
+  if kind == "f64" {
+    let els: Vec<&str> = if p[0] == "S" { vec![p[1]] } else if p[3].is_empty() { vec![] } else { p[3].split(' ').collect() };
+    if els.iter().any(|e| special_f64(e).is_some()) {
+      let nd: Vec<(String, String)> = els.iter().map(|e| match special_f64(e) { Some((n, d)) => (n.to_string(), d.to_string()), None => (elem_src(kind, e), "1.0".to_string()) }).collect();
+      if p[0] == "S" { return format!("{}{} := {} / {}\n", t, name, nd[0].0, nd[0].1); }
+      let rows: usize = p[1].parse().unwrap(); let cols: usize = p[2].parse().unwrap();
+      let lit = |pick: &dyn Fn(&(String, String)) -> String| -> String {
+        let mut l = String::from("[");
+        for i in 0..rows { if i > 0 { l.push_str("; "); } for j in 0..cols { if j > 0 { l.push(' '); } l.push_str(&pick(&nd[j * rows + i])); } }
+        l.push(']'); l };
+      return format!("{}{} := {} / {}\n", t, name, lit(&|x| x.0.clone()), lit(&|x| x.1.clone()));
+    }
+  }
   let annot_needed = !(kind == "f64" || kind == "r64" || kind == "c64" || kind == "bool" || kind == "string");
   if p[0] == "S" {
     let ann = if annot_needed { format!("<{}>", kind) } else { String::new() };
@@ -70,6 +92,7 @@ pub fn operand_inline(kind: &str, o: &str) -> Option<String> {
   let least = match kind { "i8" => "-128", "i16" => "-32768", "i32" => "-2147483648", _ => "" };
   let el = |e: &str| -> Option<String> {
     if e == least { return None; }
+    if kind == "f64" && special_f64(e).is_some() { return None; }
     Some(if annot_needed { format!("{}<{}>", elem_src(kind, e), kind) } else { elem_src(kind, e) }) };
   if p[0] == "S" {
     let t = el(p[1])?;
@@ -189,5 +212,32 @@ pub fn generate(seed: u64, thorough: bool, sink: &mut Sink) -> Vec<String> {
     }}
   }
   sink.sample(cases[0].clone());
+  // f64 operands with NaN, infinities and the negative zero (defined as quotients: they have no literal spelling):
+  // every operator accepted on f64, on the operand form pairs where a kernel of its own runs
+  {
+    let specials = ["7ff8000000000000", "7ff0000000000000", "fff0000000000000", "8000000000000000"];
+    let forms: [((usize, usize, bool), (usize, usize, bool)); 7] = [((1, 1, true), (2, 3, false)), ((2, 3, false), (1, 1, true)), ((2, 3, false), (2, 3, false)), ((1, 3, false), (1, 3, false)),
+      ((1, 3, false), (2, 3, false)), ((2, 1, false), (2, 3, false)), ((1, 1, true), (1, 1, true))];
+    for (op, _) in OPS {
+      if !accepted(op, "f64") || *op == "pow" || *op == "mod" { continue; }
+      for (lf, rf) in forms.iter() {
+        for rep in 0..(if thorough { 6 } else { 3 }) {
+          let mut mk = |f: &(usize, usize, bool), which: usize, rng: &mut Rng| -> String {
+            let o = gen_operand("f64", f.0, f.1, f.2, rng, which);
+            // replace one or two elements by special values
+            let mut parts: Vec<String> = o.split('|').map(|x| x.to_string()).collect();
+            let idx = parts.len() - 1;
+            let mut els: Vec<String> = parts[idx].split(' ').map(|x| x.to_string()).collect();
+            let k = 1 + rng.below(2) as usize;
+            // the first replaced element is a NaN (the value on which `!(a < b)` and `a >= b` differ), the second any special
+            for n in 0..k { let i = rng.below(els.len() as u64) as usize; els[i] = if n == 0 { specials[0].to_string() } else { (*rng.pick(&specials)).to_string() }; }
+            parts[idx] = els.join(" "); parts.join("|") };
+          let (a, b) = if rep % 3 == 0 { (mk(lf, 0, &mut rng), gen_operand("f64", rf.0, rf.1, rf.2, &mut rng, 1)) }
+                       else if rep % 3 == 1 { (gen_operand("f64", lf.0, lf.1, lf.2, &mut rng, 0), mk(rf, 1, &mut rng)) } else { (mk(lf, 0, &mut rng), mk(rf, 1, &mut rng)) };
+          cases.push(format!("binop\t{}\tf64\t{}\t{}\tvar", op, a, b)); sink.hit("float-specials");
+        }
+      }
+    }
+  }
   cases
 }
